@@ -21,7 +21,7 @@ from dask._task_spec import Alias, DataNode, convert_legacy_graph
 
 from . import fakes
 from .common import REPO, HarnessError, UnexecutableGraph, Violation, fp
-from .schedsim import _flatten, _nest, keyrepr
+from .schedsim import KeyOrder, _flatten, _nest, keyrepr
 
 WAIT = 120.0
 MAIN = object()  # baton value meaning "the scheduler runs"
@@ -66,7 +66,7 @@ class PreemptSim:
 
     # ---------------------------------------------------------------- called from task threads
     def current_task(self):
-        return self.cur.key if self.cur is not None else None
+        return self.ko.cname(self.cur.key) if self.cur is not None else None
 
     def _tracer(self, frame, event, arg):
         if event != "call":
@@ -93,6 +93,15 @@ class PreemptSim:
             while self.baton is not t:
                 if not self.cv.wait(WAIT):
                     raise HarnessError("preempt: task thread starved (baton never returned)")
+
+    def yield_point(self):
+        """Cooperative pre-emption point inside a fake (fakes.yield_point)."""
+        t = self.cur
+        if t is not None and threading.current_thread() is t.thread:
+            self.yields += 1
+            if self.rng.random() < max(self.yield_p, 0.5):
+                self.bump("probe.yield_inside_io")
+                self._hand_back(t)
 
     def park_on(self, lock):
         t = self.cur
@@ -123,7 +132,7 @@ class PreemptSim:
     def _resume(self, t):
         with self.cv:
             self.cur = t
-            fakes.CURRENT["task"] = keyrepr(t.key)
+            fakes.CURRENT["task"] = self.ko.cname(t.key)
             self.baton = t
             self.cv.notify_all()
             while self.baton is not MAIN:
@@ -145,9 +154,10 @@ class PreemptSim:
 
     def run(self, dsk, keys):
         g = convert_legacy_graph(dict(dsk))
+        ko = self.ko = KeyOrder(g)
         wanted = set(_flatten(keys))
         reach = set()
-        stack = sorted(wanted, key=keyrepr)
+        stack = sorted(wanted, key=ko.sort)
         for k in stack:
             if k not in g:
                 raise UnexecutableGraph(f"requested key {k!r} not in graph")
@@ -161,7 +171,7 @@ class PreemptSim:
                     raise UnexecutableGraph(f"task {k!r} depends on {x!r} which no task produces")
                 stack.append(x)
         g = {k: g[k] for k in g if k in reach}
-        deps = {k: sorted(g[k].dependencies, key=keyrepr) for k in sorted(g, key=keyrepr)}
+        deps = {k: sorted(g[k].dependencies, key=ko.sort) for k in sorted(g, key=ko.sort)}
         dependents = {k: [] for k in deps}
         for k, d in deps.items():
             for x in d:
@@ -171,8 +181,11 @@ class PreemptSim:
         cache = {}
         running = []
         before = {}
+        # every SimLock alive at run time parks on contention (also the ones a store made for lock=True)
+        self.locks = list({id(lk): lk for lk in list(self.locks) + list(fakes._LOCKS.values())}.values())
         for lk in self.locks:
             lk.scheduler = self
+        fakes.YIELD[0] = self.yield_point
         prev_phase = fakes.set_phase("execute")
         try:
             while ready or running:
@@ -196,7 +209,7 @@ class PreemptSim:
                     if isinstance(node, (DataNode, Alias)):
                         # literals and aliases have no code to interleave
                         cache[k] = node(cache)
-                        self.order.append(keyrepr(k))
+                        self.order.append(ko.cname(k))
                         self._finish(k, dependents, waiting, ready)
                         continue
                     t = _Thread(k)
@@ -205,11 +218,11 @@ class PreemptSim:
                     t.thread = threading.Thread(target=self._body, args=(t, node, cache), daemon=True)
                     t.thread.start()
                     running.append(t)
-                    self.order.append(keyrepr(k))
-                if self.trace and self.trace[-1][0] == keyrepr(t.key):
+                    self.order.append(ko.cname(k))
+                if self.trace and self.trace[-1][0] == ko.cname(t.key):
                     self.trace[-1][1] += 1
                 else:
-                    self.trace.append([keyrepr(t.key), 1])
+                    self.trace.append([ko.cname(t.key), 1])
                     self.switches += 1
                 self._resume(t)
                 if t.done:
@@ -230,6 +243,7 @@ class PreemptSim:
                     self._finish(t.key, dependents, waiting, ready)
         finally:
             fakes.set_phase(prev_phase)
+            fakes.YIELD[0] = None
             for lk in self.locks:
                 lk.scheduler = None
         self.bump("probe.preempt_switches", self.switches)
@@ -242,7 +256,7 @@ class PreemptSim:
             waiting[u] -= 1
             if waiting[u] == 0:
                 newly.append(u)
-        ready.extend(sorted(newly, key=keyrepr))
+        ready.extend(sorted(newly, key=self.ko.sort))
 
     def _drain(self, running):
         """Run the remaining in-flight tasks to completion (no more pre-emption) so no thread is left behind."""
